@@ -13,6 +13,7 @@ import (
 	"fmt"
 	"net"
 	"os"
+	"runtime"
 	"reflect"
 	"sort"
 	"strings"
@@ -820,6 +821,74 @@ func sameFactoryConcurrently(res *vkit.Result, rounds int) {
 	}
 }
 
+// mixedOutcomesConcurrently: the same, but one setting comes from an environment variable that a
+// further goroutine keeps switching between a number and a word: some creations decode, some do
+// not. A creation that reports success has a product with the decoded number; a failed decode is
+// never turned into a success by a neighbour's.
+func mixedOutcomesConcurrently(res *vkit.Result, rounds int) {
+	nodeType := plugin.PtrType((*Node)(nil))
+	var serial atomic.Int64
+	plugin.Register(nodeType, "cnode-flip", func(c NodeConf) Node { return &node{c} }, func() NodeConf { return NodeConf{Weight: -int(serial.Add(1))} })
+	const env = "VERIF_C18_FLIP"
+	os.Setenv(env, "5")
+	defer os.Unsetenv(env)
+	var h nodeHolder
+	c := map[string]any{"shape": "cnode-flip", "probe": "one factory called from 16 goroutines while ${ENV:" + env + "} flips between 5 and a word"}
+	if err := config.Decode(map[string]any{"f": map[string]any{"type": "cnode-flip", "name": "same", "weight": "${ENV:" + env + "}"}}, &h); err != nil {
+		res.Violate("C18/concurrent-factory/decode", fmt.Sprintf("decode failed: %v", err), c)
+		return
+	}
+	bad := ""
+	var okN, errN atomic.Int64
+	for r := 0; r < rounds && bad == ""; r++ {
+		var stop atomic.Bool
+		var fwg sync.WaitGroup
+		fwg.Add(1)
+		go func() {
+			defer fwg.Done()
+			for i := 0; !stop.Load(); i++ {
+				os.Setenv(env, []string{"5", "certainly not a number"}[i%2])
+				runtime.Gosched()
+			}
+		}()
+		var mu sync.Mutex
+		var wg sync.WaitGroup
+		for w := 0; w < 16; w++ {
+			wg.Add(1)
+			go func() {
+				defer wg.Done()
+				for i := 0; i < 50; i++ {
+					n, err := h.F()
+					if err != nil {
+						errN.Add(1)
+						continue
+					}
+					okN.Add(1)
+					if n == nil || n.Info().Name != "same" || n.Info().Weight != 5 {
+						mu.Lock()
+						if n == nil {
+							bad = "a creation reported success without a product"
+						} else {
+							bad = fmt.Sprintf("a creation reported success; its product is configured with name %q weight %d, want the decoded \"same\" and 5 (a negative weight is the untouched default)", n.Info().Name, n.Info().Weight)
+						}
+						mu.Unlock()
+						return
+					}
+				}
+			}()
+		}
+		wg.Wait()
+		stop.Store(true)
+		fwg.Wait()
+	}
+	res.Count("concurrent_factory_mixed_ok", okN.Load())
+	res.Count("concurrent_factory_mixed_errors", errN.Load())
+	if bad != "" {
+		res.Violate("C18/concurrent-factory/failed-decode-reported-as-success", bad, c)
+	}
+	res.Eval(vkit.JSON(c), okN.Load() > 0 && errN.Load() > 0)
+}
+
 type ptrNode struct{ c *NodeConf }
 
 func (n *ptrNode) Info() NodeConf { return *n.c }
@@ -1335,6 +1404,7 @@ func main() {
 	hookPass(res)
 	nestedAndOverlap(res)
 	sameFactoryConcurrently(res, vkit.N(60, 1500))
+	mixedOutcomesConcurrently(res, vkit.N(40, 1000))
 	typeOnlySections(res)
 	registerHelpers(res)
 	selfValidatingFields(res)
